@@ -342,6 +342,7 @@ pub struct StepW {
 	pub p_probe_in_body: u8,
 	pub p_yield: u8,
 	pub p_coll_target: u8,
+	pub p_transient: u8,
 }
 
 impl Default for StepW {
@@ -371,6 +372,7 @@ impl Default for StepW {
 			p_probe_in_body: 40,
 			p_yield: 0,
 			p_coll_target: 190,
+			p_transient: 0,
 		}
 	}
 }
@@ -548,8 +550,9 @@ pub fn gen_seq(src: &mut Src<'_>, cfg: &SeqCfg) -> SeqCase {
 			7 => {
 				let leaf = src.pick(sem_nlocks.max(1)) as Lid;
 				let shared = src.chance(110);
+				let transient = src.chance(sw.p_transient);
 				phantoms.push(leaf);
-				Step::PhantomHold { leaf, shared }
+				Step::PhantomHold { leaf, shared, transient }
 			}
 			8 => {
 				let i = src.pick(phantoms.len());
